@@ -584,4 +584,100 @@ theorem recordsW {Φ : DecProg.Out → Prop} (tsKnown : Nat → Bool) (chk : Boo
       | zero => simpa [DecProg.messages] using this
       | succ f => simpa [DecProg.messages, hlt] using this
 
+/-! ### file header -/
+
+def errAB : Integrity.Err → Wire.Err
+  | .eof => .eof
+  | .notFit => .notFit
+  | .crc => .crcMismatch
+  | .defMissing => .defMissing
+  | .invalidBaseType => .invalidBaseType
+
+theorem errAofD_eq (e : DecProg.Err) : errAofD e = errAB (errB e) := by cases e <;> rfl
+
+theorem len11W {l : List Nat} (h : l.length = 11) : ∃ a0 a1 a2 a3 a4 a5 a6 a7 a8 a9 a10, l = [a0, a1, a2, a3, a4, a5, a6, a7, a8, a9, a10] := by
+  match l, h with
+  | [a0, a1, a2, a3, a4, a5, a6, a7, a8, a9, a10], _ => exact ⟨a0, a1, a2, a3, a4, a5, a6, a7, a8, a9, a10, rfl⟩
+
+theorem len13W {l : List Nat} (h : l.length = 13) : ∃ a0 a1 a2 a3 a4 a5 a6 a7 a8 a9 a10 a11 a12, l = [a0, a1, a2, a3, a4, a5, a6, a7, a8, a9, a10, a11, a12] := by
+  match l, h with
+  | [a0, a1, a2, a3, a4, a5, a6, a7, a8, a9, a10, a11, a12], _ => exact ⟨a0, a1, a2, a3, a4, a5, a6, a7, a8, a9, a10, a11, a12, rfl⟩
+
+/-- the header (A) keeps, from (B)'s header and the header bytes -/
+def hdrW (h : Integrity.Hdr) (bs : List Nat) : Wire.DecHdr :=
+  ⟨h.size, ((bs.drop 1).take (h.size - 1)).headD 0, DecProg.le16 (((bs.drop 1).take (h.size - 1)).drop 1), h.dataSize, h.crc⟩
+
+theorem le32_getD (b : List Nat) (h : 7 ≤ b.length) :
+    b.getD 3 0 + 256 * b.getD 4 0 + 65536 * b.getD 5 0 + 16777216 * b.getD 6 0 = Integrity.le32 (b.drop 3) := by
+  match b, h with
+  | _ :: _ :: _ :: _ :: _ :: _ :: _ :: _, _ => rfl
+
+theorem le16_getD11 (b : List Nat) (h : 13 ≤ b.length) : b.getD 11 0 + 256 * b.getD 12 0 = Integrity.le16 (b.drop 11) := by
+  match b, h with
+  | _ :: _ :: _ :: _ :: _ :: _ :: _ :: _ :: _ :: _ :: _ :: _ :: _ :: _, _ => rfl
+
+theorem pv_getD (b : List Nat) (h : 3 ≤ b.length) :
+    b.getD 0 0 = b.headD 0 ∧ b.getD 1 0 + 256 * b.getD 2 0 = DecProg.le16 (b.drop 1) := by
+  match b, h with
+  | _ :: _ :: _ :: _, _ => exact ⟨rfl, rfl⟩
+
+/-- `decodeHeader` of (A) is (B)'s `decodeFileHeader` -/
+theorem headerW (chk : Bool) (bs : List Nat) :
+    Wire.decodeHeader chk bs = match Integrity.decodeFileHeader chk bs with
+      | .ok (h, rest) => .ok (hdrW h bs, rest)
+      | .error e => .error (errAB e) := by
+  cases bs with
+  | nil => rfl
+  | cons size rest =>
+    unfold Wire.decodeHeader
+    by_cases hsz : size ≠ 12 ∧ size ≠ 14
+    · have : (size != 12 && size != 14) = true := by simp [hsz.1, hsz.2]
+      simp [this, Integrity.decodeFileHeader, hsz, errAB]
+    have hsz' : size = 12 ∨ size = 14 := by omega
+    have hb1 : (size != 12 && size != 14) = false := by rcases hsz' with h | h <;> subst h <;> rfl
+    simp only [hb1, Bool.false_eq_true, if_false]
+    by_cases hl : size - 1 ≤ rest.length
+    · have hnl : ¬ rest.length < size - 1 := by omega
+      simp only [hnl, if_false]
+      have hblen : (List.take (size - 1) rest).length = size - 1 := by simp; omega
+      have hB := hdrB_cons chk size rest hsz hl
+      have hhdr : ∀ d c, hdrW ⟨size, d, c⟩ (size :: rest) =
+          ⟨size, (List.take (size - 1) rest).headD 0, DecProg.le16 ((List.take (size - 1) rest).drop 1), d, c⟩ := by
+        intro d c; simp only [hdrW, List.drop_succ_cons, List.drop_zero]
+      generalize hb : List.take (size - 1) rest = b at hblen hB hhdr ⊢
+      have hpv := pv_getD b (by omega)
+      rw [le32_getD b (by omega), hpv.1, hpv.2]
+      have htagL : ([0x2E, 0x46, 0x49, 0x54] : List Nat) = Fit.Gen.Integ.dataTypeFIT := rfl
+      rw [htagL]
+      by_cases htag : List.take 4 (List.drop 7 b) ≠ Fit.Gen.Integ.dataTypeFIT
+      · have : (List.take 4 (List.drop 7 b) != Fit.Gen.Integ.dataTypeFIT) = true := by simpa using htag
+        simp [this, Integrity.decodeFileHeader, hsz, hasN_true hl, hb, htag, errAB]
+      · have htb : (List.take 4 (List.drop 7 b) != Fit.Gen.Integ.dataTypeFIT) = false := by simpa using htag
+        simp only [htb, Bool.false_eq_true, if_false]
+        by_cases hds : Integrity.le32 (List.drop 3 b) = 0
+        · simp [hds, Integrity.decodeFileHeader, hsz, hasN_true hl, hb, htag, errAB]
+        · simp only [hds, if_false]
+          rw [hB htag hds]
+          rcases hsz' with h12 | h14
+          · subst h12
+            simp [hhdr]
+          · subst h14
+            simp only [beq_self_eq_true, if_true, le16_getD11 b (by omega)]
+            by_cases hc0 : Integrity.le16 (List.drop 11 b) = 0
+            · simp [hc0, hhdr]
+            · by_cases hchk : chk = true
+              · subst hchk
+                have hw : write 0 (14 :: List.take 11 b) = write (write 0 [14]) (List.take (14 - 1 - 2) b) := rfl
+                rw [hw]
+                by_cases hne : write (write 0 [14]) (List.take (14 - 1 - 2) b) ≠ Integrity.le16 (List.drop 11 b)
+                · have : (write (write 0 [14]) (List.take (14 - 1 - 2) b) != Integrity.le16 (List.drop 11 b)) = true := by simpa using hne
+                  simp [hc0, this, hne, errAB]
+                · have : (write (write 0 [14]) (List.take (14 - 1 - 2) b) != Integrity.le16 (List.drop 11 b)) = false := by simpa using hne
+                  simp [hc0, this, hne, hhdr]
+              · have hchk' : chk = false := by simpa using hchk
+                subst hchk'
+                simp [hc0, hhdr]
+    · have hnl : rest.length < size - 1 := by omega
+      simp [hnl, Integrity.decodeFileHeader, hsz, hasN_false' hnl, errAB]
+
 end Fit.Link
